@@ -282,10 +282,18 @@ def run_sharded(harness, req_path, workdir, timeout):
     return shards, problems
 
 
-def iter_results(shards):
+def iter_results(shards, window=None):
+    """yields (request, implementation answer, model answer); `window` (a deque) holds the requests the same harness
+    process answered just before the current one"""
     for s in shards:
+        if window is not None:
+            window.clear()
         with open(s) as fr, open(s + ".impl") as fi, open(s + ".model") as fm:
+            prev = None
             for rq in fr:
+                if window is not None and prev is not None:
+                    window.append(prev)
+                prev = rq.rstrip("\n")
                 im = fi.readline()
                 mo = fm.readline()
                 if not im.endswith("\n") or not mo.endswith("\n"):
